@@ -251,6 +251,31 @@ theorem cfactor_sound (M : Scm) (G : MG Name) (hM : M.Compatible G) (hG : G.WF) 
     (h : computeCFactor D S q topo = .ok e) : ∀ σ, den (M.env G) σ' e σ = M.Q D σ :=
   TianSound.computeCFactor_sound hM hG hrank σ' topo S htnd hord hsub D hDnd hDH hclosed q e hshape hq h
 
+/-- **Lemma 1 (i) with NO syntactic hypothesis**: a probability that denotes `Q[H]` in every compatible positive
+model (see `tian_semantic_shape`) -/
+theorem cfactor_lemma1_sound_semantic (G : MG Name) (hG : G.WF) (hrank : G.Ranked)
+    (H : List Name) (hnd : H.Nodup) (hsub : ∀ v ∈ H, v ∈ G.nodes) (htopo : TopoOrdered G H)
+    (D : List Name) (hDnd : D.Nodup) (hDH : ∀ v ∈ D, v ∈ H) (hclosed : BiClosedIn G D H)
+    (pop : Option Var) (ch pa : List Var) (e : Expr) (σ' : Val)
+    (hq : ∀ M : Scm, M.Compatible G → ∀ σ, den (M.env G) σ' (.prob pop ch pa) σ = M.Q H σ)
+    (h : lemma1 D (.prob pop ch pa) H = .ok e) :
+    ∀ M : Scm, M.Compatible G → ∀ σ, den (M.env G) σ' e σ = M.Q D σ := fun M hM =>
+  TianSem.lemma1_sound hM hG hrank σ' H hnd hsub htopo D hDnd hDH hclosed pop ch pa e
+    (tian_semantic_shape G hG H hnd hsub _ σ' hq) (hq M hM) h
+
+/-- **`compute_c_factor` with NO syntactic hypothesis** -/
+theorem cfactor_sound_semantic (G : MG Name) (hG : G.WF) (hrank : G.Ranked)
+    (topo S : List Name) (htnd : topo.Nodup) (hord : TopoOrdered G topo)
+    (hsub : ∀ v ∈ topo.filter (· ∈ S), v ∈ G.nodes)
+    (D : List Name) (hDnd : D.Nodup) (hDH : ∀ v ∈ D, v ∈ topo.filter (· ∈ S))
+    (hclosed : BiClosedIn G D (topo.filter (· ∈ S)))
+    (q e : Expr) (σ' : Val)
+    (hq : ∀ M : Scm, M.Compatible G → ∀ σ, den (M.env G) σ' q σ = M.Q (topo.filter (· ∈ S)) σ)
+    (h : computeCFactor D S q topo = .ok e) :
+    ∀ M : Scm, M.Compatible G → ∀ σ, den (M.env G) σ' e σ = M.Q D σ := fun M hM =>
+  TianSem.computeCFactor_sound hM hG hrank σ' topo S htnd hord hsub D hDnd hDH hclosed q e
+    (tian_semantic_shape G hG _ (htnd.filter _) hsub q σ' hq) (hq M hM) h
+
 /-- **Lemma 3** (`compute_ancestral_set_q_value`): marginalising an expression for `Q[H]` over `H ∖ A` gives `Q[A]`
 when `A` is an ancestral set of `G[H]`. -/
 theorem ancestral_q_sound (M : Scm) (G : MG Name) (hM : M.Compatible G) (hrank : G.Ranked)
@@ -317,6 +342,27 @@ example : ProbShape (.prob none [pl 1, pl 2, pl 3, pl 0] [pl 0]) [1, 2, 3] :=
 /-- … and IDENTIFY ignores them -/
 example : identify g [2] [1, 2, 3] (.prob none [pl 1, pl 2, pl 3, pl 0] [pl 0]) [0, 3, 1, 2]
     = .ok (some (.prob none [pl 2] [pl 0, pl 1])) := by rfl
+
+/-- the hypothesis of `tian_sound_semantic` is satisfiable: `P_z(A,B,D)` denotes `Q[{A,B,D}]` in EVERY model
+compatible with `g` (truncated factorisation) -/
+example (σ' : Val) : ∀ M : Scm, M.Compatible g → ∀ σ,
+    den (M.env g) σ' (.prob none [inZ 1, inZ 2, inZ 3] []) σ = M.Q [1, 2, 3] σ := by
+  intro M hM σ
+  rw [TianProb.den_prob_world hM (MG.wf_fromEdges _ _ _) σ σ' [⟨0, false⟩] (by decide) none _ _ (by simp)
+    (by unfold TianProb.InWorld; decide)]
+  simp only [↓reduceIte, div_one]
+  rfl
+
+/-- `+X` (a starred variable) -/
+def st (n : Name) : Var := { name := n, star := some true }
+
+/-- the weaker shape of `tian_sound_in` admits starred parents and non-nodes: `P(A, B, D | Z, +X9)` -/
+example : ProbShapeIn g (.prob none [pl 1, pl 2, pl 3] [pl 0, st 9]) [1, 2, 3] :=
+  ⟨[], by decide, by decide, by decide, by decide, by decide, by decide⟩
+
+/-- … IDENTIFY carries them along -/
+example : identify g [2] [1, 2, 3] (.prob none [pl 1, pl 2, pl 3] [pl 0, st 9]) [0, 3, 1, 2]
+    = .ok (some (.prob none [pl 2] [pl 0, pl 1, st 9])) := by rfl
 
 /-- the order used above is topological for `g` -/
 example : TopoOrdered g [0, 3, 1, 2] := by
